@@ -13,11 +13,14 @@
   `eval_sound`: evaluation of ANY well-formed tree (all operators, all widths, shifts by any amount, rotations,
   slices, compositions, conditionals, extensions) under a total constant valuation returns the constant
   `cst (ideal ρ e)` of width `e.size` — proved by structural induction, for every fuel and complexity oracle.
-  The induction through `simplify` is proved for widths and well-formedness (C12: `Amoco.widthIH_all`); for
-  VALUES it is not finished: see `simplify_sound_partial` at the end of this file for what is proved and
-  which cases are missing.
+  `simplify_sound` / `oper_sound` / `slice_sound` / `compose_sound` / `extend_sound`: the induction through the
+  whole rewrite system (`Amoco.soundIH_all`, on the fuel of the mutual block): on the sign-agnostic fragment
+  (`Plain`), with plain `simplify()` options and the complexity threshold off, under `NoRenderClash ρ`, the
+  result of every entry point is again `Plain`, well-formed, of the dictated width, and has the ideal value its
+  construction dictates.  What is outside that fragment is listed at `simplify_sound_partial` (widths and
+  well-formedness hold there too: C12).
 -/
-import Amoco.Proofs.ExprEvalSound
+import Amoco.Proofs.ExprSoundSimp
 
 namespace Amoco.C01
 
@@ -305,19 +308,93 @@ theorem comp_of_constants (ρ : Val) (n k : Nat) (ps : List Part) (hl : ps.lengt
   obtain ⟨v, f, h1, h2, h3⟩ := restruct_allcst ρ n k ps hl ht hw hc hn
   exact ⟨v, f, by unfold restruct; rw [hl]; exact h1, h2, h3⟩
 
-/-! ## simplification: what the structural induction gives today
+/-! ## simplification: value soundness by induction over the whole rewrite system -/
 
-`simplify_sound_partial` is the finished fragment of the induction `oper_sound`/`simplify_sound`:
-every function of the rewrite system, for every fuel, option and complexity oracle, returns a WELL-FORMED
-expression of the SAME WIDTH (so a constant result `cst v w` satisfies `v < 2^w` with `w` the dictated
-width).  Missing (not proved; covered on every run by the correspondence tie and the reference evaluator):
-that the VALUE of the simplified tree is the ideal value of the input — threading the per-rule lemmas above
-through `op.simplify`/`eqn2_helpers`/`comp.__setitem__` (`ideal ρ (simplify e) = ideal ρ e` under `WF e`,
-`SignOK e`, `NoRenderClash e`), case by case: `normL`/`normR` (reassoc_pm_*), `eqn2cst` (op_zero_*,
-mask_to_slice, sh*_to_comp, bitslice_logic), `eqn2snd` (merge_consts, eq_bit, comp distribution), `eqn2tail`
-(x_op_x, which the code decides by comparing renderings: that step needs `NoRenderClash`), `eqn1` (neg_of_sum,
-not_cond), `setitem`/`cut`/`getitem` (comp_cut, slice_of_comp), `extendExp` (extension).
-The evaluation half IS finished (`eval_sound` above). -/
+/-- `NoRenderClash ρ`: the simplifier decides `x op x`, the comparison shortcuts and the equality of `tst`
+    branches by comparing renderings (`str(l) == str(r)`) or `hash(str)+size` (`exp.__eq__`).  The hypothesis:
+    under `ρ`, two well-formed `Plain` expressions of one size that render alike (or are `exp.__eq__`-equal) have
+    the same value.  (It fails e.g. for a register *named* `"(a+0x1)"` whose value is not `a+1`.) -/
+abbrev NoRenderClash (ρ : Val) : Prop := EqOK ρ
+
+/-- the complexity threshold is off (`conf.Cas.complexity = 0`, or never exceeded) -/
+abbrev NoThreshold (cfg : Cfg) : Prop := ∀ e, cfg.cplx e = false
+
+/-- **simplify_sound**.  `e` well-formed and in the sign-agnostic fragment `Plain` (constants, registers,
+    slices, compositions, conditionals, `+ - * & | ^ == != <. >=. << >> //` and unary `- ~`, all widths, shifts by
+    any amount): whatever `e.simplify()` returns is again well-formed and `Plain`, has the width of `e`, and
+    under every valuation without rendering clashes **the same value as `e`**.  For every fuel. -/
+theorem simplify_sound (cfg : Cfg) (hc : NoThreshold cfg) (ρ : Val) (hρ : NoRenderClash ρ) (fuel : Nat) (e r : Expr)
+    (he : WF e) (hp : Plain e) (h : simplify cfg fuel {} e = .ok r) :
+    WF r ∧ r.size = e.size ∧ Plain r ∧ ideal ρ r = ideal ρ e := by
+  obtain ⟨h1, h2⟩ := (widthIH_all cfg fuel).simplify {} e he r h
+  obtain ⟨h3, h4⟩ := (soundIH_all cfg hc ρ hρ fuel).simplify {} e he hp OptsOK_default r h
+  exact ⟨h1, h2, h3, h4⟩
+
+/-- **oper_sound**.  `_operator.__call__(l, r)` (the Python operators `l + r`, `l & r`, `l == r`, `ltu(l,r)`,
+    `l << r` …, each followed by the simplification of the new node) on well-formed `Plain` operands returns an
+    expression with the reference meaning of the operator applied to the values of the operands. -/
+theorem oper_sound (cfg : Cfg) (hc : NoThreshold cfg) (ρ : Val) (hρ : NoRenderClash ρ) (fuel : Nat) (o : Op)
+    (l r res : Expr) (hl : WF l) (hr : WF r) (hpl : Plain l) (hpr : Plain r) (ho : agnOp o = true)
+    (hsz : o.type ≠ 8 → l.size = r.size) (h : callOp cfg fuel o l r = .ok res) :
+    WF res ∧ res.size = (if o.type = 4 then 1 else l.size) ∧ Plain res ∧
+      ideal ρ res = binSem o false l.size (ideal ρ l) (ideal ρ r) := by
+  obtain ⟨h1, h2⟩ := (widthIH_all cfg fuel).callOp o l r hl hr (fun h4 => hsz (by omega)) res h
+  obtain ⟨h3, h4⟩ := (soundIH_all cfg hc ρ hρ fuel).callOp o l r hl hr hpl hpr ho hsz res h
+  refine ⟨h1, ?_, h3, h4⟩
+  rw [h2]
+  cases o <;> simp [agnOp] at ho <;> simp [resSize, Op.type]
+
+/-- unary `-x`, `~x` -/
+theorem uoper_sound (cfg : Cfg) (hc : NoThreshold cfg) (ρ : Val) (hρ : NoRenderClash ρ) (fuel : Nat) (o : Op)
+    (x res : Expr) (hx : WF x) (hp : Plain x) (ho : o = Op.sub ∨ o = Op.not) (h : callUop cfg fuel o x = .ok res) :
+    WF res ∧ res.size = x.size ∧ Plain res ∧ ideal ρ res = unSem o x.size (ideal ρ x) := by
+  obtain ⟨h1, h2⟩ := (widthIH_all cfg fuel).callUop o x hx res h
+  obtain ⟨h3, h4⟩ := (soundIH_all cfg hc ρ hρ fuel).callUop o x hx hp ho res h
+  exact ⟨h1, h2, h3, h4⟩
+
+/-- **slice_sound**.  `x[a:b]` is the slice of the value (through `comp.__getitem__`, `cut`, `restruct`,
+    slices of slices …). -/
+theorem slice_sound (cfg : Cfg) (hc : NoThreshold cfg) (ρ : Val) (hρ : NoRenderClash ρ) (fuel : Nat)
+    (x res : Expr) (a b : Int) (hx : WF x) (hp : Plain x) (h : getitem cfg fuel x a b = .ok res) :
+    WF res ∧ res.size = (b - a).toNat ∧ Plain res ∧ ideal ρ res = bitsOf (ideal ρ x) a.toNat (b.toNat - a.toNat) := by
+  obtain ⟨h1, h2⟩ := (widthIH_all cfg fuel).getitem x a b hx res h
+  obtain ⟨h3, h4⟩ := (soundIH_all cfg hc ρ hρ fuel).getitem x a b hx hp res h
+  exact ⟨h1, h2, h3, h4⟩
+
+/-- **compose_sound**.  `composer([x0, x1, …])` (a `comp` filled by `__setitem__`, then simplified) is the
+    concatenation of the values, `x0` lowest. -/
+theorem compose_sound (cfg : Cfg) (hc : NoThreshold cfg) (ρ : Val) (hρ : NoRenderClash ρ) (fuel : Nat)
+    (parts : List Expr) (res : Expr) (hw : ∀ x ∈ parts, WF x) (hp : ∀ x ∈ parts, Plain x)
+    (h : composer cfg fuel parts = .ok res) :
+    WF res ∧ res.size = parts.foldl (fun a x => a + x.size) 0 ∧ Plain res ∧ ideal ρ res = catVal ρ parts := by
+  obtain ⟨h1, h2⟩ := (widthIH_all cfg fuel).composer parts hw res h
+  obtain ⟨h3, h4⟩ := (soundIH_all cfg hc ρ hρ fuel).composer parts hw hp res h
+  exact ⟨h1, h2, h3, h4⟩
+
+/-- **extend_sound**.  `x.zeroextend(n)` keeps the value, `x.signextend(n)` is the `n`-bit two's complement of
+    the signed reading of `x` (for a non-constant `x` and `n > x.size`; constants: `fold_*`/`extension`). -/
+theorem extend_sound (cfg : Cfg) (hc : NoThreshold cfg) (ρ : Val) (hρ : NoRenderClash ρ) (fuel : Nat) (sign : Bool)
+    (x res : Expr) (n : Nat) (hx : WF x) (hp : Plain x) (hn : x.size < n) (h : extendExp cfg fuel sign x n = .ok res) :
+    WF res ∧ res.size = n ∧ Plain res ∧
+      ideal ρ res = (if sign then wrap n (toInt x.size (ideal ρ x)) else ideal ρ x) := by
+  obtain ⟨h1, h2⟩ := (widthIH_all cfg fuel).extendExp sign x n hx res h
+  obtain ⟨h3, h4⟩ := (soundIH_all cfg hc ρ hρ fuel).extendExp sign x n hx hp hn res h
+  exact ⟨h1, by rw [h2]; omega, h3, h4⟩
+
+/-! ### outside the fragment of `simplify_sound`
+
+`simplify_sound_partial`: for EVERY well-formed tree, every fuel, option and complexity oracle, the rewrite
+system returns a WELL-FORMED expression of the SAME WIDTH (so a constant result `cst v w` satisfies `v < 2^w`
+with `w` the dictated width).  Value soundness of `simplify` is NOT proved (it is covered on every run by the
+correspondence tie and the reference evaluator) for:
+  * trees containing the sign-dependent operators `< <= > >= ** / %` or the rotations `>>> <<<` (their own
+    rules are proved alone above: `x_op_x`, `not_cond`, `mul2_one`, `div_one`, `fold_*`, `ror/rol_formula`; the
+    declared-signedness side condition `SignOK` is not threaded through the rewriting of their operands);
+  * `top`, `vec`, `vecw`, `mem`, `ptr` (non-deterministic or memory-dependent meanings: C19 / C13), externals
+    (`ext == 0 ⇒ false` is an assumption about the loader), a unary operator applied to a literal constant;
+  * the options `bitslice=True` (rule lemmas: `bitslice_logic`, `shl/shr_to_comp`) and `widening=True`;
+  * the complexity threshold on (it introduces `top`).
+The evaluation half is finished for all operators (`eval_sound` above). -/
 theorem simplify_sound_partial (cfg : Cfg) (fuel : Nat) (opts : Opts) (e r : Expr) (he : WF e)
     (h : simplify cfg fuel opts e = .ok r) :
     WF r ∧ r.size = e.size ∧ (∀ v s f, r = .cst v s f → v < 2 ^ s ∧ s = e.size) := by
@@ -364,6 +441,18 @@ def cfg0 : Cfg := { cplx := fun _ => false, vecCplx := fun _ => false }
 example : (match eval cfg0 30 exEnv exE with | .ok (.cst v s _) => v == 0x11 && s == 8 | _ => false) = true := by
   decide +kernel
 
+
+/-- a tree of the fragment of `simplify_sound`: `((a + 3) - a) & 0xff00` — and what `simplify` makes of it -/
+def exS : Expr :=
+  .op .and (.op .sub (.op .add (.reg "a" 32 false) (.cst 3 32 false) 32 false 1) (.reg "a" 32 false) 32 false 1)
+    (.cst 0xff00 32 false) 32 false 3
+
+example : WF exS ∧ Plain exS := by
+  constructor
+  · simp [exS, WF, Op.type]
+  · simp [exS, Plain, agnOp]
+
+example : (match simplify cfg0 40 {} exS with | .ok r => r.size == 32 | _ => false) = true := by decide +kernel
 
 example : binSem Op.and false 32 0x12345678 0xff00 = (bitsOf 0x12345678 8 8) <<< 8 := by decide
 example : maskBounds 0xff00 = some (8, 15) := by decide +kernel
